@@ -3,7 +3,7 @@ import HL.Spec.CompletionSpec
 import HL.Lemmas.Text
 /-! Helper lemmas for HL.Props.C16. -/
 namespace HL.Completion
-open HL.Text HL.CompletionSpec
+open HL.Text HL.CompletionSpec HL.Lemmas.Text
 
 /-! ### The fuzzy loop is the greedy subsequence test -/
 
@@ -529,5 +529,69 @@ theorem editStart_query (c : Ctx) (line : Str) (col : Nat) (hcol : col ≤ line.
       have := findCommodityStart_spec before
       rw [hlen] at this
       exact ⟨_, rfl, this.1, this.2⟩
+
+/-! ### Further helpers of HL.Props.C16 -/
+
+theorem normMax_id (n : Nat) (h : 1 ≤ n) : normMax (n : Int) = n := by
+  unfold normMax; split <;> omega
+
+theorem usage_eq_countOf (t : Table) (c : Ctx) (hj : judged c = true) (l : Str) :
+    usage t c l = countOf (countsFor t c) l := by
+  have key : ∀ m : List (Str × Nat),
+      (match m.find? (·.1 == l) with | some p => p.2 | none => 0) = (m.lookup l).getD 0 := by
+    intro m
+    induction m with
+    | nil => rfl
+    | cons p ps ih =>
+      obtain ⟨a, b⟩ := p
+      simp only [List.find?_cons, List.lookup_cons]
+      by_cases h : a = l
+      · subst h; simp
+      · have h1 : (a == l) = false := by simpa using h
+        have h2 : (l == a) = false := by simpa using fun h' => h h'.symm
+        simp only [h1, h2]; exact ih
+  cases c <;> simp [judged] at hj <;> simp only [usage, countOf, countsFor] <;> exact key _
+
+theorem nonIncreasing_of_pairwise (l : List Nat) (h : l.Pairwise (· ≥ ·)) : nonIncreasing l = true := by
+  induction l with
+  | nil => rfl
+  | cons a r ih =>
+    cases r with
+    | nil => rfl
+    | cons b r =>
+      have h' := List.pairwise_cons.1 h
+      simp only [nonIncreasing, Bool.and_eq_true, decide_eq_true_eq]
+      exact ⟨h'.1 b List.mem_cons_self, ih h'.2⟩
+
+theorem takeU16_u16len_take (line : Str) (k : Nat) (hk : k ≤ line.length) :
+    takeU16 line (u16len (line.take k)) = k := by
+  induction line generalizing k with
+  | nil => simp at hk; subst hk; rfl
+  | cons c cs ih =>
+    cases k with
+    | zero => simp [u16len, takeU16]
+    | succ k =>
+      have hw := u16w_pos c
+      simp only [List.take_succ_cons, u16len, takeU16]
+      rw [if_neg (by omega), Nat.add_sub_cancel_left, ih k (by simpa using hk)]
+      omega
+
+theorem u16len_take_mono (line : Str) (a b : Nat) (h : a ≤ b) :
+    u16len (line.take a) ≤ u16len (line.take b) := by
+  have := (List.take_append_drop a (line.take b)).symm
+  rw [List.take_take, Nat.min_eq_left h] at this
+  rw [this, u16len_append]; omega
+
+theorem hasPrefix_false_of_head (line p : Str) (x y : Char) (hl : line.head? = some x) (hp : p.head? = some y)
+    (hxy : y ≠ x) : hasPrefix line p = false := by
+  cases line with
+  | nil => simp at hl
+  | cons a as =>
+    cases p with
+    | nil => simp at hp
+    | cons b bs =>
+      simp only [List.head?_cons, Option.some.injEq] at hl hp
+      subst hl; subst hp
+      simp [hasPrefix, List.isPrefixOf_cons_cons, hxy]
 
 end HL.Completion
